@@ -127,7 +127,7 @@ def splitSuffixParsed (netloc : Str) : Option (Str × Str) :=
   if h = [] then none else if isSpecialHost h then none else splitSuffix h
 
 /-- stems.py:55-77 on the answer of `split_suffix`; `hn` is `parsed_url.hostname.lower()`
-(stems.py:68), `stripped = hn.rstrip(".")`.  Since FX-C12-EMPTYLABELS the empty labels that
+(stems.py:68), `stripped = hn.rstrip(".")`.  Since FX-C12-ed8ae90 the empty labels that
 `split_suffix` does not return are emitted, as when `suffix_aware` is False: one stem `h:` per
 trailing dot of the hostname before the suffix stem (stems.py:71-72), and the labels of the domain
 also when the domain is empty but the suffix is shorter than the stripped hostname (a lone leading
